@@ -43,7 +43,7 @@ var partial = []lww.Batch{
 	{I("c", 2), D("d"), I("e", 1), I("e", 2), S(3)},
 	{I("a", 3), D("b"), I("e", 3), S(4)},
 }
-var ids = []string{"a", "b", "c", "d", "e", "zz"}
+var ids = append([]string{"d", "e"}, lww.FamilyIDs...)
 var keys = []string{"seq"}
 
 func modelAfter(q int) *lww.Model { return modelOf(workload, q) }
@@ -63,6 +63,7 @@ type cfg struct {
 	batches int
 	conf    map[string]interface{}
 	wl      []lww.Batch // nil = workload
+	family  []string    // workload family: word and the moment the copy starts are environment choices
 }
 
 func zapFiles(store string) []string {
@@ -83,6 +84,15 @@ func body(k cfg) func(c *drv.Ctx) {
 		wl = workload
 	}
 	return func(c *drv.Ctx) {
+		k, wl := k, wl
+		if k.family != nil {
+			word := k.family[vrt.Choose(len(k.family), "workload")]
+			wl = lww.BuildWord(word)
+			k.batches = len(wl)
+			k.startAt = vrt.Choose(len(wl), "copy-starts-after-batch")
+			c.Observe(fmt.Sprintf("wl=%s,start=%d", word, k.startAt))
+			c.Count("family_words_run", 1)
+		}
 		src := c.Dir + "/src"
 		var idx bleve.Index
 		vrt.Free(func() {
@@ -602,7 +612,18 @@ func Scenarios() []drv.Scenario {
 	d1r := []drv.Phase{{Bound: 1, Filter: "restricted"}}
 	d1 := []drv.Phase{{Bound: 1}}
 	d2 := []drv.Phase{{Bound: 1}, {Bound: 2, Filter: "restricted"}}
+	d0 := []drv.Phase{{Bound: 0}}
+	words := lww.PlainWords(mc.Tier())
+	fam := func(name string, conf map[string]interface{}, copies int) drv.Scenario {
+		sc := mk(cfg{name: name, copies: copies, conf: conf, family: words}, d0, d0)
+		sc.Doc = "workload family: every word over the batch-shape alphabet {n u b d w x m} after a setup batch is the writer's workload and the backup starts after every possible acknowledgement (environment choices: all words x all start moments)"
+		return sc
+	}
 	return []drv.Scenario{
+		fam("family-copy-aggressive-merges", aggressive1, 1),
+		fam("family-copy-unsafe-aggressive-merges", unsafeAgg, 1),
+		fam("family-two-copies-partial-merges", map[string]interface{}{"scorchMergePlanOptions": bx.PartialMergePlan, "numSnapshotsToKeep": 1}, 2),
+		fam("family-copy-unsafe-2-persister-workers", map[string]interface{}{"unsafe_batch": true, "numSnapshotsToKeep": 1, "scorchPersisterOptions": map[string]interface{}{"NumPersisterWorkers": 2, "MaxSizeInMemoryMergePerWorker": 1}}, 1),
 		mk(cfg{name: "copy-after-batch1", copies: 1, startAt: 1, batches: 3, conf: aggressive1}, d1r, d2),
 		mk(cfg{name: "copy-after-batch1-segments-keep-live-documents", copies: 1, startAt: 1, batches: 4, conf: aggressive1, wl: partial}, nil, d2),
 		mk(cfg{name: "copy-from-start-unsafe-segments-keep-live-documents", copies: 1, startAt: 0, batches: 4, conf: unsafeAgg, wl: partial}, nil, d2),
